@@ -56,6 +56,11 @@ func runC03(env *Env, rc *RunCtx) {
 		return
 	}
 	N := base.Calls
+	if N > 500 {
+		// hundreds of fault positions x thousands of calls each: not worth one run
+		rc.Rec.Skipped = "too-expensive"
+		return
+	}
 	sigma := et0.Recorded()
 	rc.Rec.NonTrivial = N >= 2
 	rc.Count("base_calls", N)
